@@ -497,10 +497,7 @@ func (w *World) genInstall(d *raft.VNode) Op {
 		if q.LastIndex <= d.CommitIndex && t != q.LastTerm {
 			op.Adv = true // a snapshot is a prefix of the committed sequence
 		}
-		if q.LastIndex > d.CommitIndex && t == q.LastTerm && q.LastIndex > d.Log.Prev {
-			// the node already holds the snapshot's last entry: a correct leader's probe would have matched there (F9)
-			op.Adv = true
-		}
+
 	}
 	if q.LastTerm > q.Term {
 		op.Adv = true
